@@ -28,7 +28,7 @@ func runC03Keys(c *Ctx, w *ATWorld) {
 	for i := 0; i < n; i++ {
 		r := rng.Fork()
 		cid := fmt.Sprintf("c03-k%d", i)
-		o := ATGenOpts{NullableVals: r.Chance(50), StrPK: r.Chance(40), BigInts: r.Chance(10), CollideKeys: r.Chance(15), AllowFindings: r.Chance(15)}
+		o := ATGenOpts{NullableVals: r.Chance(50), StrPK: r.Chance(40), BigInts: r.Chance(10), CollideKeys: r.Chance(15), AllowFindings: r.Chance(15), Upserts: r.Chance(30)}
 		cs := genATCase(r, w, cid, o)
 		cs.Locals = cs.Locals[:1]
 		if len(cs.Rows) < 2 && r.Chance(80) {
